@@ -208,25 +208,43 @@ class Gen:
         R = r.choice([1, 2]) if n > 1 else 1
         I = r.choice([200, 1000])
         custom = r.random() < 0.5
+        tsize = r.choice([4096, 256])        # 256: two entries per table, so most keys live in a table that is not written anymore
         yield "watchdog 120s"
         yield "clock %d" % T0
         if custom:
-            yield "c.new n=%d r=%d w=1 rq=1 rr=0 parts=3 tsize=4096 cdm=cx cidle_ms=%d" % (n, R, I)
+            yield "c.new n=%d r=%d w=1 rq=1 rr=0 parts=3 tsize=%d cdm=cx cidle_ms=%d" % (n, R, tsize, I)
         else:
-            yield "c.new n=%d r=%d w=1 rq=1 rr=0 parts=3 tsize=4096 idle_ms=%d" % (n, R, I)
+            yield "c.new n=%d r=%d w=1 rq=1 rr=0 parts=3 tsize=%d idle_ms=%d" % (n, R, tsize, I)
         dms = ["cx", "dm"] if custom else ["dm"]
         keys = [(d, hx(b"i%02d" % i)) for d in dms for i in range(5)]
         for d, k in keys:
             yield "c.own %s %s" % (d, k)
         now = T0
         ver = 0
+        if tsize == 256:
+            # directed: fill several tables, let more than the idle window pass, read everything: a Get stamps the
+            # entry before the idle test looks at it - wherever in the fragment the entry lives - so every read succeeds
+            for d, k in keys:
+                ver += 1
+                yield "c.put emb %d %s %s %s" % (r.randrange(n), d, k, hx(b"v%d" % ver + b"p" * 70))
+            now += (I // 2) * 1_000_000
+            yield "clock %d" % now
+            for d, k in keys[::2]:
+                yield "c.get %s %d %s %s" % (r.choice(["emb", "cli", "raw"]), r.randrange(n), d, k)
+            now += (I // 2 + 50) * 1_000_000
+            yield "clock %d" % now
+            for d, k in keys[::2]:
+                yield "c.get %s %d %s %s" % (r.choice(["emb", "cli", "raw"]), r.randrange(n), d, k)
+            yield "bg.evict"
+            for dd, kk in keys:
+                yield "wb %s %s" % (dd, kk)
         for _ in range(nops or 50):
             x = r.random()
             d, k = r.choice(keys)
             if x < 0.35:
                 ver += 1
                 opts = " PX %d" % r.choice([300, 5000]) if r.random() < 0.3 else ""
-                yield "c.put %s %d %s %s %s%s" % (r.choice(["emb", "cli", "raw"]), r.randrange(n), d, k, hx(b"v%d" % ver), opts)
+                yield "c.put %s %d %s %s %s%s" % (r.choice(["emb", "cli", "raw"]), r.randrange(n), d, k, hx(b"v%d" % ver + b"p" * (70 if tsize == 256 else 0)), opts)
             elif x < 0.55:
                 yield "c.get %s %d %s %s" % (r.choice(["emb", "cli", "raw"]), r.randrange(n), d, k)
             elif x < 0.8:
